@@ -202,7 +202,9 @@ func RunVM(req *sb.Request, mods map[string]ast.AnalyzedProgram) (res sb.RunResu
 		res.CompileErr = err.Error()
 		return res
 	}
-	pctx := NewPollCtx(req.CancelAt, req.PollCap)
+	// NewVM runs the initialisation code and documents a panic if that fails, so the cancel
+	// schedule starts when NewVM has returned: poll numbers are relative to that moment.
+	pctx := NewPollCtx(0, 0)
 	pctx.OnCancel = func() {
 		rec.mu.Lock()
 		rec.writesAtCancel = len(rec.Writes)
@@ -233,7 +235,7 @@ func RunVM(req *sb.Request, mods map[string]ast.AnalyzedProgram) (res sb.RunResu
 			res.WritesAfterCancel = len(rec.Writes) - rec.writesAtCancel
 		}
 		rec.mu.Unlock()
-		res.Polls = pctx.Polls()
+		res.Polls = pctx.Polls() - pctx.base
 		if pctx.cancelled.Load() {
 			res.PollsAfterCancel = pctx.Polls() - pctx.cancelPoll.Load()
 		}
@@ -244,6 +246,7 @@ func RunVM(req *sb.Request, mods map[string]ast.AnalyzedProgram) (res sb.RunResu
 		fill()
 		return res
 	}
+	pctx.Arm(req.CancelAt, req.PollCap)
 	if !req.SkipMain {
 		core := vm.SpawnAsync(hsruntime.MainFn(), nil, nil, nil)
 		_, i := vm.Wait()
